@@ -4,8 +4,8 @@ import json, subprocess
 
 CLAIMED = {
  "C01": dict(
-   text="Bounded model checking of the real Marshal/Unmarshal code: for each of ~45 catalogue types (every codec kind in every position: scalars of every width, flat/intern/proto tags, pointers, packed/fixed/counted slices, pointer slices, nested and recursive structs, maps with string/int/struct keys and pointer/struct/slice values, time, null.*, named types, multi-byte tags, top-level non-struct values) a value whose integers, floats (bit patterns), string bytes and time fields are unrestricted solver symbols and whose shapes (nil / empty / populated, lengths up to the bound) are enumerated is marshalled and unmarshalled by the symbolically executed library; round-trip equality up to the documented normalisations is one solver query per path (unsat = holds for every value of that shape). Default and proto-compatible configurations.",
-   note="Bounds: string/[]byte length <=1 (quick) / <=2 (thorough), slice length <=1/2, map entries <=1/2, struct nesting depth 2/3; all scalar values unrestricted. Types outside the catalogue (incl. types built with reflect.StructOf) and larger sizes are outside the claim. reflect is modelled from go/types; codec construction runs inside the engine on that model.",
+   text="Bounded model checking of the real Marshal/Unmarshal code: for each of 61 catalogue types (every codec kind in every position: scalars of every width, flat/intern/proto tags, pointers, packed/fixed/counted slices, pointer slices, nested and recursive structs, maps with string/int/struct keys and pointer/struct/slice values, time, null.*, named types, multi-byte tags, zero-sized fields, instantiated generic structs, the flat option on slices, top-level non-struct values) a value whose integers, floats (bit patterns), string bytes and time fields are unrestricted solver symbols and whose shapes (nil / empty / populated, lengths up to the bound) are enumerated is marshalled and unmarshalled by the symbolically executed library; round-trip equality up to the documented normalisations is one solver query per path (unsat = holds for every value of that shape). Default and proto-compatible configurations (both switches; each switch alone for types sensitive to both). Size-boundary harnesses with concrete shape and symbolic content cross the 1/2/3-byte length-prefix boundaries (bodies of 125..129 and 16381..16385 bytes, map entries of 126..128 and 16382..16384 bytes, slices of 7..33 elements).",
+   note="Bounds: string/[]byte length <=1 (quick) / <=2 (thorough), slice length <=1/2, map entries <=1/2, struct nesting depth 2/3; all scalar values unrestricted. Thorough tier: per top-level field one variant with that field at the larger bounds; a variant needing more than 60000 paths or 3 minutes is not claimed at those bounds (listed under coverage.bounds_reduced) and the harness is then explored completely at the quick bounds. Types outside the catalogue (incl. types built with reflect.StructOf) and larger sizes are outside the claim. reflect is modelled from go/types; codec construction runs inside the engine on that model.",
    design="DESIGN.md §4 C01"),
  "C02": dict(
    text="Differential bounded model checking against an independent definition of the wire format: a reference encoder generated from the catalogue's static types implements README.md / wire.go / the golden files (tags, zig-zag vs plain varints, fixed widths, length prefixes, packed vs counted slices, map entries as key=1/value=2, omission rules, declaration order) without calling plenc; for every catalogue type and every value within the bounds the solver decides impl_bytes == ref_bytes (for some rotation of map entry order). Decode side: the reference encoding with the top-level fields in every order (all permutations up to 3 fields) must unmarshal to the value.",
@@ -16,15 +16,15 @@ CLAIMED = {
    note="Bounds as C01. Pairs outside the 17 listed are outside the claim; changing a field's type is documented as unsupported.",
    design="DESIGN.md §4 C03"),
  "C04": dict(
-   text="Bounded model checking of decoder totality: for 33 target types (every Read implementation) and their descriptors, Unmarshal / Descriptor.Read run symbolically on a byte string whose length (0..4 quick, 0..6 thorough) is enumerated and whose every byte is a free 8-bit symbol, with and without spare capacity behind the slice (spare bytes poisoned: any read is a violation). Every implicit run-time check (index, slice bounds incl. negative after int(uint64), nil, type confusion of unsafe casts), every allocation request (must stay within 4096*(len+1) bytes) and every loop (unwinding bound len+16) is a solver query on every path.",
+   text="Bounded model checking of decoder totality: for 41 target types (every Read implementation) and their descriptors, Unmarshal / Descriptor.Read run symbolically on a byte string whose length (0..4 quick, 0..5 for the top-level slice/map/scalar targets; 0..6 thorough) is enumerated and whose every byte is a free 8-bit symbol, with and without spare capacity behind the slice (spare bytes poisoned: any read is a violation). Every implicit run-time check (index, slice bounds incl. negative after int(uint64), nil, type confusion of unsafe casts), every allocation request (must stay within 4096*(len+1) bytes) and every loop (unwinding bound len+16) is a solver query on every path. Also into re-used targets (slices with spare capacity, non-nil maps and pointers).",
    note="Outside the bound: inputs longer than stated, targets not listed (JSON-any codecs are under C16). Wall-clock promptness is represented by the unwinding bound. One committed known finding: Descriptor() of recursive types overflows the stack.",
    design="DESIGN.md §4 C04"),
  "C05": dict(
-   text="Bounded model checking of the codec laws on the codecs plenc builds for every catalogue type (both configurations): Size(ptr,nil)==len(Append(nil,ptr,nil)); with a tag whose index is a solver symbol, Size(ptr,tag)==len(Append(nil,ptr,tag)); framing = tag, varint(len(body)) for WTLength, body; Read(body) succeeds and consumes exactly len(body). Values symbolic as in C01.",
+   text="Bounded model checking of the codec laws on the codecs plenc builds for every catalogue type (both configurations): Size(ptr,nil)==len(Append(nil,ptr,nil)); with a tag whose index is a solver symbol, Size(ptr,tag)==len(Append(nil,ptr,tag)); framing = tag, varint(len(body)) for WTLength, body; Read(body) succeeds and consumes exactly len(body). Values symbolic as in C01. Size-boundary harnesses (length prefixes of 1/2/3 bytes, packed bodies around 8192 and 16384 bytes, two-byte tags) and a size / mutate-in-place / size-again history on a 9-entry map.",
    note="Bounds as C01; tag index in [1,2^11) quick / [1,2^28) thorough. Exported BigQuery timestamp and JSON-any codecs are checked in dedicated harnesses.",
    design="DESIGN.md §4 C05"),
  "C06": dict(
-   text="Bounded model checking of Marshal's append contract on 15 representative types: symbolic prefix bytes (0 or 2), spare capacity 0/1/64, value symbolic incl. the all-zero value: prefix bytes unchanged, appended bytes == Marshal(nil,v), by-value == by-pointer (the engine reproduces gc's direct-interface representation), re-marshal into the reused buffer identical.",
+   text="Bounded model checking of Marshal's append contract on 15 representative types: symbolic prefix bytes (0 or 2), spare capacity 0/1/64, value symbolic incl. the all-zero value: prefix bytes unchanged, appended bytes == Marshal(nil,v), by-value == by-pointer (the engine reproduces gc's direct-interface representation), re-marshal into the reused buffer identical; marshal with a nil buffer, mutate the same instance in place (nested struct, map value), marshal again into the re-used buffer == fresh encoding of the new value.",
    note="Bounds as C01; histories of 3 calls.",
    design="DESIGN.md §4 C06"),
  "C09": dict(
@@ -64,11 +64,11 @@ CLAIMED = {
    note="Integers restricted to one-byte varints in the quick tier (full width thorough). Descriptor-walk harnesses use at most one member per object (member order is the encoder's map iteration order).",
    design="DESIGN.md §4 C16"),
  "C17": dict(
-   text="Bounded model checking of registration scoping with a marker codec defined in the harness: for symbolic values, an instance with the marker registered for a type (and under a tag name for another) must use it as value, struct field, pointer target, slice element, map key and map value (bytes compared with a reference containing the marker at exactly those positions), while a plain instance and the package-level default encode the same values with the kind codecs, reject the unknown tag option, are byte-identical to each other and stay unchanged when a third instance with other options/registrations is created between uses; sync.Map is modelled per object, so a shared registry makes the marker visible where it must not be.",
+   text="Bounded model checking of registration scoping with a marker codec defined in the harness: for symbolic values, an instance with the marker registered for a type (and under a tag name for another) must use it as value, struct field, pointer target, slice element, map key and map value (bytes compared with a reference containing the marker at exactly those positions), while a plain instance and the package-level default encode the same values with the kind codecs, reject the unknown tag option, are byte-identical to each other and stay unchanged when a third instance with other options/registrations is created between uses; sync.Map is modelled per object, so a shared registry makes the marker visible where it must not be. Registrations on the package default (also under a tag name, also for a basic kind) stay invisible to other instances; a constructed type (named int, []string) under two different tag options in one struct build gets the codec of each (type, option) pair, in both field orders and nested.",
    note="Sequential only (concurrent registration is C07, not claimed).",
    design="DESIGN.md §4 C17"),
  "C19": dict(
-   text="Bounded model checking of interning transparency over sequential histories: 3 (quick) / 4 (thorough) decodes of symbolic strings (length <=2, arbitrary bytes, so equal / different / empty / prefix relations are all reachable through the solver) into a struct with two interned fields and its non-interned twin, all from one reused input buffer that is overwritten with fresh symbols after every decode: interned == plain == encoded, encodings identical with and without the option, and every string returned earlier still equals its value (the copy-on-write table code runs from SSA over the engine's map model); same for an interned null.String.",
+   text="Bounded model checking of interning transparency over sequential histories: 3 (quick) / 4 (thorough) decodes of symbolic strings (length <=2, arbitrary bytes, so equal / different / empty / prefix relations are all reachable through the solver) into a struct with two interned fields and its non-interned twin, all from one reused input buffer that is overwritten with fresh symbols after every decode: interned == plain == encoded, encodings identical with and without the option, and every string returned earlier still equals its value (the copy-on-write table code runs from SSA over the engine's map model); same for an interned null.String (fresh and re-used targets) and for strings of 7, 8 and 9 arbitrary bytes.",
    note="The 'from any number of goroutines' half is not claimed (see C07).",
    design="DESIGN.md §4 C19"),
  "C18": dict(
